@@ -542,13 +542,14 @@ func (s State) Bytes() []byte {
 
 // Listener hands scripted inbound connections to Server.Serve.
 type Listener struct {
-	net    *Net
-	addr   *net.TCPAddr
-	mu     sync.Mutex
-	cond   *sync.Cond
-	q      []*Conn
-	err    error
-	closed bool
+	net       *Net
+	addr      *net.TCPAddr
+	mu        sync.Mutex
+	cond      *sync.Cond
+	q         []*Conn
+	err       error
+	closed    bool
+	closeSpin int64
 }
 
 // NewListener creates a listener bound to addr (only reported by Addr()).
@@ -582,7 +583,20 @@ func (l *Listener) Accept() (net.Conn, error) {
 	}
 }
 
+// SetCloseSpin makes Close busy-wait that long (microseconds) before it takes effect.
+func (l *Listener) SetCloseSpin(us int64) {
+	l.mu.Lock()
+	l.closeSpin = us
+	l.mu.Unlock()
+}
+
 func (l *Listener) Close() error {
+	l.mu.Lock()
+	spin := l.closeSpin
+	l.mu.Unlock()
+	if spin > 0 {
+		Spin(spin)
+	}
 	l.mu.Lock()
 	defer l.mu.Unlock()
 	l.closed = true
